@@ -1,4 +1,5 @@
 import StepModel.AttrNull
+import StepModel.ModeGlue
 /-!
 C15 — strict and lenient handling of missing required attributes.
 
@@ -91,9 +92,9 @@ theorem C15_strict_plumbing (s : Bool) :
 /-! ### attribute level: the decision table (`d = true`: the value is `$`; `d = false`: no value before the delimiter) -/
 
 /-- an attribute position as the registry describes it: plain (`f = false`) or redeclared by the entity at hand with a
-    narrower type (`f = true`; the C++ attribute list flags such a position derived as well and carries a redefining
-    attribute for it); `k` is the underlying kind of the (narrower) type, `r`: it is a defined type on a defined type -/
-def posAttr (k : Kind) (o r f : Bool) : AttrD := ⟨k, o, f, r, f⟩
+    narrower type (`f = true`; the C++ attribute list carries a redefining attribute for it and, depending on the version of
+    the class generator, flags the position derived as well: `d`); `k` is the underlying kind of the (narrower) type, `r`: it is a defined type on a defined type -/
+def posAttr (k : Kind) (o r f : Bool) (d : Bool := false) : AttrD := ⟨k, o, f && d, r, f⟩
 
 /-- a redeclared position reads exactly like an attribute of its narrower type, in the caller's mode, whatever the
     derived flag the class gives it (the forward to the redefining attribute comes first and its error is taken over) -/
@@ -103,28 +104,28 @@ theorem C15_attr_redeclared_as_own (strict : Bool) (k : Kind) (o d r : Bool) (t 
   have h2 : redefStrict = none := rfl
   simp [attrRead, attrReadR, h1, h2]
 
-theorem C15_attr_optional (strict d r f : Bool) (k : Kind) :
-    attrRead strict (posAttr k true r f) (.missing d) = (.null, .null) := by
-  cases strict <;> cases f <;> rfl
+theorem C15_attr_optional (strict d r f g : Bool) (k : Kind) :
+    attrRead strict (posAttr k true r f g) (.missing d) = (.null, .null) := by
+  cases strict <;> cases f <;> cases g <;> rfl
 
-theorem C15_attr_strict_required (d r f : Bool) (k : Kind) :
-    attrRead true (posAttr k false r f) (.missing d) = (.incomplete, .null) := by
-  cases f <;> rfl
+theorem C15_attr_strict_required (d r f g : Bool) (k : Kind) :
+    attrRead true (posAttr k false r f g) (.missing d) = (.incomplete, .null) := by
+  cases f <;> cases g <;> rfl
 
 /-- `k` is the UNDERLYING kind: the substitution reaches an INTEGER/REAL/NUMBER/STRING behind any chain of defined types
     (`r`: the attribute's own type is a defined type on a defined type), at plain and at redeclared positions (`f`) -/
-theorem C15_attr_lenient_substitutes (k : Kind) (r f : Bool) (h : substitutable k = true) :
-    attrRead false (posAttr k false r f) (.missing true) = (.usermsg, .tok (substValue k)) := by
-  cases f <;> cases r <;> cases k <;> first | rfl | (simp [substitutable] at h)
+theorem C15_attr_lenient_substitutes (k : Kind) (r f g : Bool) (h : substitutable k = true) :
+    attrRead false (posAttr k false r f g) (.missing true) = (.usermsg, .tok (substValue k)) := by
+  cases g <;> cases f <;> cases r <;> cases k <;> first | rfl | (simp [substitutable] at h)
 
-theorem C15_attr_lenient_other (k : Kind) (r f : Bool) (h : substitutable k = false) :
-    attrRead false (posAttr k false r f) (.missing true) = (.incomplete, .null) := by
-  cases f <;> cases r <;> cases k <;> first | rfl | (simp [substitutable] at h)
+theorem C15_attr_lenient_other (k : Kind) (r f g : Bool) (h : substitutable k = false) :
+    attrRead false (posAttr k false r f g) (.missing true) = (.incomplete, .null) := by
+  cases g <;> cases f <;> cases r <;> cases k <;> first | rfl | (simp [substitutable] at h)
 
 /-- a required value that is not there at all is a malformed parameter list: incomplete in BOTH modes, every kind -/
-theorem C15_attr_absent_required (strict r f : Bool) (k : Kind) :
-    attrRead strict (posAttr k false r f) (.missing false) = (.incomplete, .null) := by
-  cases strict <;> cases f <;> cases r <;> cases k <;> rfl
+theorem C15_attr_absent_required (strict r f g : Bool) (k : Kind) :
+    attrRead strict (posAttr k false r f g) (.missing false) = (.incomplete, .null) := by
+  cases strict <;> cases g <;> cases f <;> cases r <;> cases k <;> rfl
 
 theorem C15_attr_derived_star (strict o r : Bool) (k : Kind) :
     attrRead strict ⟨k, o, true, r, false⟩ .star = (.null, .derived) := by
@@ -305,22 +306,22 @@ theorem C15_conforming_clean (s : Bool) (is : List InstIn) (h : ∀ x ∈ is, Cl
 
 /-- OPTIONAL attribute unset — `$` or no value at all —, ANY position of ANY instance shape (any part of a complex
     instance included), either mode: the file reads with severity NULL, p21read exits 0, the instance is complete. -/
-theorem C15_optional_ok (s d r f : Bool) (k : Kind) (i : InstIn) (pre post : List InstIn)
+theorem C15_optional_ok (s d r f g : Bool) (k : Kind) (i : InstIn) (pre post : List InstIn)
     (hpre : ∀ x ∈ pre, CleanInst s x) (hpost : ∀ x ∈ post, CleanInst s x)
-    (h : OneMissing s (posAttr k true r f) d i) :
+    (h : OneMissing s (posAttr k true r f g) d i) :
     readFile s (pre ++ i :: post) = .null ∧ accepted (readFile s (pre ++ i :: post)) = true ∧
     nodeState (readInst s i) = .complete := by
   have hs : (readInst s i).sev = .null := by
     cases h with
     | simple h₁ h₂ =>
-      have := instRead_sev_at (C15_strict_plumbing s).1 (posAttr k true r f) (Tok.missing d) h₁ h₂
+      have := instRead_sev_at (C15_strict_plumbing s).1 (posAttr k true r f g) (Tok.missing d) h₁ h₂
       rw [C15_attr_optional] at this; exact this
     | @complex ps₁ ps₂ as₁ ts₁ as₂ ts₂ hp₁ _ h₁ h₂ =>
       simp only [readInst]
       cases ps₁ with
       | nil =>
         rw [List.nil_append, complexRead_sev_head]
-        have := instRead_sev_at (C15_strict_plumbing s).2.1 (posAttr k true r f) (Tok.missing d) h₁ h₂
+        have := instRead_sev_at (C15_strict_plumbing s).2.1 (posAttr k true r f g) (Tok.missing d) h₁ h₂
         rw [C15_attr_optional] at this; exact this
       | cons p ps =>
         rw [List.cons_append, complexRead_sev_head]
@@ -338,18 +339,18 @@ theorem C15_optional_ok (s d r f : Bool) (k : Kind) (i : InstIn) (pre post : Lis
     `_partial`: internally mapped instances (every own/inherited position) and the first part of a complex instance;
     redeclared positions included (`f`); excluded: the parts of a complex instance other than the first
     (see `C15_strict_required_complex_nonhead_witness`). -/
-theorem C15_strict_required_incomplete_partial (d r f : Bool) (k : Kind) (i : InstIn) (pre post : List InstIn)
+theorem C15_strict_required_incomplete_partial (d r f g : Bool) (k : Kind) (i : InstIn) (pre post : List InstIn)
     (hpre : ∀ x ∈ pre, CleanInst true x) (hpost : ∀ x ∈ post, CleanInst true x)
-    (h : OneMissingSH true (posAttr k false r f) d i) :
+    (h : OneMissingSH true (posAttr k false r f g) d i) :
     p21readExit (readFile true (pre ++ i :: post)) = 1 ∧ accepted (readFile true (pre ++ i :: post)) = false ∧
     nodeState (readInst true i) = .incomplete := by
   rw [readFile_one i pre post hpre hpost, complex_of_SH_cases h, C15_attr_strict_required]
   cases h <;> exact ⟨rfl, rfl, rfl⟩
 
 /-- … for internally mapped instances the file severity is exactly SEVERITY_INCOMPLETE -/
-theorem C15_strict_required_severity_simple (d r f : Bool) (k : Kind) (i : InstIn) (pre post : List InstIn)
+theorem C15_strict_required_severity_simple (d r f g : Bool) (k : Kind) (i : InstIn) (pre post : List InstIn)
     (hpre : ∀ x ∈ pre, CleanInst true x) (hpost : ∀ x ∈ post, CleanInst true x)
-    (h : OneMissingSimple true (posAttr k false r f) d i) : readFile true (pre ++ i :: post) = .incomplete := by
+    (h : OneMissingSimple true (posAttr k false r f g) d i) : readFile true (pre ++ i :: post) = .incomplete := by
   cases h with
   | simple h₁ h₂ =>
     rw [readFile_one _ pre post hpre hpost, complex_of_SH_cases (.simple h₁ h₂), C15_attr_strict_required]; rfl
@@ -357,51 +358,51 @@ theorem C15_strict_required_severity_simple (d r f : Bool) (k : Kind) (i : InstI
 /-- required INTEGER / REAL / NUMBER / STRING given as `$`, LENIENT mode: user message, file accepted (exit 0), instance
     complete.  `_partial`: internally mapped instances (every own/inherited position); excluded: attributes inside
     complex instances (`C15_lenient_substitutes_complex_head_witness`, `…_nonhead_witness`). -/
-theorem C15_lenient_substitutes_partial (k : Kind) (r f : Bool) (hk : substitutable k = true) (i : InstIn)
+theorem C15_lenient_substitutes_partial (k : Kind) (r f g : Bool) (hk : substitutable k = true) (i : InstIn)
     (pre post : List InstIn)
     (hpre : ∀ x ∈ pre, CleanInst false x) (hpost : ∀ x ∈ post, CleanInst false x)
-    (h : OneMissingSimple false (posAttr k false r f) true i) :
+    (h : OneMissingSimple false (posAttr k false r f g) true i) :
     readFile false (pre ++ i :: post) = .usermsg ∧ accepted (readFile false (pre ++ i :: post)) = true ∧
     nodeState (readInst false i) = .complete := by
   cases h with
   | simple h₁ h₂ =>
-    rw [readFile_one _ pre post hpre hpost, complex_of_SH_cases (.simple h₁ h₂), C15_attr_lenient_substitutes k r f hk]
+    rw [readFile_one _ pre post hpre hpost, complex_of_SH_cases (.simple h₁ h₂), C15_attr_lenient_substitutes k r f g hk]
     exact ⟨rfl, rfl, rfl⟩
 
 /-- … and the value stored at that position (the one written back) is 0 / 0.0 / 0 / '' — internally mapped instance -/
-theorem C15_lenient_value_simple (k : Kind) (r f : Bool) (hk : substitutable k = true)
+theorem C15_lenient_value_simple (k : Kind) (r f g : Bool) (hk : substitutable k = true)
     {as₁ ts₁} (as₂ ts₂) (h₁ : CleanL false as₁ ts₁) :
-    ((readVals false (.simple (as₁ ++ (posAttr k false r f) :: as₂) (ts₁ ++ Tok.missing true :: ts₂)))[0]?.bind
+    ((readVals false (.simple (as₁ ++ (posAttr k false r f g) :: as₂) (ts₁ ++ Tok.missing true :: ts₂)))[0]?.bind
       (·[as₁.length]?)) = some (.tok (substValue k)) := by
   simp only [readVals, List.getElem?_cons_zero, Option.bind_some]
-  rw [instRead_val_at (C15_strict_plumbing false).1 as₂ ts₂ _ _ h₁, C15_attr_lenient_substitutes k r f hk]
+  rw [instRead_val_at (C15_strict_plumbing false).1 as₂ ts₂ _ _ h₁, C15_attr_lenient_substitutes k r f g hk]
 
 /-- … the substitution itself also happens inside every part of a complex instance (the flags reach the parts) -/
-theorem C15_lenient_value_complex (k : Kind) (r f : Bool) (hk : substitutable k = true)
+theorem C15_lenient_value_complex (k : Kind) (r f g : Bool) (hk : substitutable k = true)
     (ps₁ ps₂ : List (List AttrD × List Tok)) {as₁ ts₁} (as₂ ts₂) (h₁ : CleanL false as₁ ts₁) :
-    ((readVals false (.complex (ps₁ ++ (as₁ ++ (posAttr k false r f) :: as₂, ts₁ ++ Tok.missing true :: ts₂) :: ps₂)))[ps₁.length]?.bind
+    ((readVals false (.complex (ps₁ ++ (as₁ ++ (posAttr k false r f g) :: as₂, ts₁ ++ Tok.missing true :: ts₂) :: ps₂)))[ps₁.length]?.bind
       (·[as₁.length]?)) = some (.tok (substValue k)) := by
   simp only [readVals, complexRead, List.map_append, List.map_cons, List.map_map]
   rw [List.getElem?_append_right (by simp)]
   simp only [List.length_map, Nat.sub_self, List.getElem?_cons_zero, Option.bind_some]
-  rw [instRead_val_at (C15_strict_plumbing false).2.1 as₂ ts₂ _ _ h₁, C15_attr_lenient_substitutes k r f hk]
+  rw [instRead_val_at (C15_strict_plumbing false).2.1 as₂ ts₂ _ _ h₁, C15_attr_lenient_substitutes k r f g hk]
 
 /-- required attribute of any other kind given as `$`, LENIENT mode: incomplete, read fails — as in strict mode.
     `_partial`: same shapes as `C15_strict_required_incomplete_partial`. -/
-theorem C15_lenient_other_incomplete_partial (k : Kind) (r f : Bool) (hk : substitutable k = false) (i : InstIn)
+theorem C15_lenient_other_incomplete_partial (k : Kind) (r f g : Bool) (hk : substitutable k = false) (i : InstIn)
     (pre post : List InstIn)
     (hpre : ∀ x ∈ pre, CleanInst false x) (hpost : ∀ x ∈ post, CleanInst false x)
-    (h : OneMissingSH false (posAttr k false r f) true i) :
+    (h : OneMissingSH false (posAttr k false r f g) true i) :
     p21readExit (readFile false (pre ++ i :: post)) = 1 ∧ accepted (readFile false (pre ++ i :: post)) = false ∧
     nodeState (readInst false i) = .incomplete := by
-  rw [readFile_one i pre post hpre hpost, complex_of_SH_cases h, C15_attr_lenient_other k r f hk]
+  rw [readFile_one i pre post hpre hpost, complex_of_SH_cases h, C15_attr_lenient_other k r f g hk]
   cases h <;> exact ⟨rfl, rfl, rfl⟩
 
 /-- required attribute with NO value at all (`,` or `)` where a value is expected), either mode, every kind — also the
     four that lenient mode would substitute for a `$`: incomplete, read fails.  `_partial`: shapes as above. -/
-theorem C15_absent_required_incomplete_partial (s r f : Bool) (k : Kind) (i : InstIn) (pre post : List InstIn)
+theorem C15_absent_required_incomplete_partial (s r f g : Bool) (k : Kind) (i : InstIn) (pre post : List InstIn)
     (hpre : ∀ x ∈ pre, CleanInst s x) (hpost : ∀ x ∈ post, CleanInst s x)
-    (h : OneMissingSH s (posAttr k false r f) false i) :
+    (h : OneMissingSH s (posAttr k false r f g) false i) :
     p21readExit (readFile s (pre ++ i :: post)) = 1 ∧ accepted (readFile s (pre ++ i :: post)) = false ∧
     nodeState (readInst s i) = .incomplete := by
   rw [readFile_one i pre post hpre hpost, complex_of_SH_cases h, C15_attr_absent_required]
@@ -454,17 +455,17 @@ theorem C15_redeclared_required_example :
 /-- general form of `complex:usermsg-escalated`: lenient `$` for a required INTEGER/REAL/NUMBER/STRING at ANY position of the FIRST
     part of a complex instance, anywhere in an otherwise clean population: the part substitutes with a user message (the instance
     ends complete), yet the file ends with SEVERITY_WARNING and p21read exits 1 -/
-theorem C15_lenient_substitutes_complex_head_escalated (k : Kind) (r f : Bool) (hk : substitutable k = true)
+theorem C15_lenient_substitutes_complex_head_escalated (k : Kind) (r f g : Bool) (hk : substitutable k = true)
     {ps₂ as₁ ts₁ as₂ ts₂} (pre post : List InstIn)
     (hpre : ∀ x ∈ pre, CleanInst false x) (hpost : ∀ x ∈ post, CleanInst false x)
     (hp : CleanParts false ps₂) (h₁ : CleanL false as₁ ts₁) (h₂ : CleanL false as₂ ts₂) :
-    let i := InstIn.complex ((as₁ ++ posAttr k false r f :: as₂, ts₁ ++ Tok.missing true :: ts₂) :: ps₂)
+    let i := InstIn.complex ((as₁ ++ posAttr k false r f g :: as₂, ts₁ ++ Tok.missing true :: ts₂) :: ps₂)
     (readInst false i).sev = .usermsg ∧ readFile false (pre ++ i :: post) = .warning ∧
     p21readExit (readFile false (pre ++ i :: post)) = 1 ∧ nodeState (readInst false i) = .complete := by
   intro i
-  have hsh : OneMissingSH false (posAttr k false r f) true i := .head hp h₁ h₂
+  have hsh : OneMissingSH false (posAttr k false r f g) true i := .head hp h₁ h₂
   have hr := complex_of_SH_cases hsh
-  rw [C15_attr_lenient_substitutes k r f hk] at hr
+  rw [C15_attr_lenient_substitutes k r f g hk] at hr
   rw [readFile_one i pre post hpre hpost, hr]
   exact ⟨rfl, rfl, rfl, rfl⟩
 
@@ -584,6 +585,123 @@ theorem C15_trailing_old_shape_witness (a : AttrD) :
     lookAheadR 2 .null [Slot.redefining, Slot.redefining, Slot.redefining, Slot.attr a] = .null ∧
     lookAheadR 1 .null [Slot.redefining, Slot.redefining, Slot.redefining, Slot.attr a] = .warning := by
   constructor <;> rfl
+
+/-! ### the mode that reaches the reader is the mode the caller asked for -/
+
+open StepModel.ModeGlue in
+theorem applyLetter_strict_mono (o : Opts) (c : Char) (h : o.strict = true) : (applyLetter o c).strict = true := by
+  unfold applyLetter
+  have hs : p21readStrictWithDashS = true := rfl
+  repeat' split
+  all_goals simp_all
+
+open StepModel.ModeGlue in
+/-- p21read, any spelling of the flags whose letters are i, t, s (no `-v`, no unknown letter): strict mode is requested iff
+    some flag argument before `--` / before the first file name contains the letter `s` — every letter of a cluster counts -/
+theorem C15_p21read_strict_iff_s (args : List String)
+    (hl : ∀ a ∈ flagArgs args, ∀ c ∈ a.toList.tail, c = 'i' ∨ c = 't' ∨ c = 's') :
+    (parseArgs initial args).1.strict = true ↔ ∃ a ∈ flagArgs args, 's' ∈ a.toList.tail := by
+  -- generalised over the options accumulated so far (never exited, never usage)
+  have key : ∀ (args : List String) (o : Opts), o.version = false → o.usage = false →
+      (∀ a ∈ flagArgs args, ∀ c ∈ a.toList.tail, c = 'i' ∨ c = 't' ∨ c = 's') →
+      ((parseArgs o args).1.strict = true ↔ (o.strict = true ∨ ∃ a ∈ flagArgs args, 's' ∈ a.toList.tail)) := by
+    intro args
+    induction args with
+    | nil => intro o _ _ _; simp [parseArgs, flagArgs]
+    | cons a rest ih =>
+      intro o hv hu hl
+      by_cases hdd : a = "--"
+      · simp [parseArgs, flagArgs, hdd]
+      · by_cases hf : isFlagArg a = true
+        · simp only [parseArgs, flagArgs, hdd, hf, if_false, if_true] at hl ⊢
+          -- fold over the letters of this argument
+          have hfold : ∀ (cs : List Char) (o : Opts), o.version = false → o.usage = false →
+              (∀ c ∈ cs, c = 'i' ∨ c = 't' ∨ c = 's') →
+              (cs.foldl applyLetter o).version = false ∧ (cs.foldl applyLetter o).usage = false ∧
+              ((cs.foldl applyLetter o).strict = true ↔ (o.strict = true ∨ 's' ∈ cs)) := by
+            intro cs
+            induction cs with
+            | nil => intro o hv hu _; simp [hv, hu]
+            | cons c cs ihc =>
+              intro o hv hu hc
+              have hc1 := hc c (by simp)
+              have hstep : (applyLetter o c).version = false ∧ (applyLetter o c).usage = false ∧
+                  ((applyLetter o c).strict = true ↔ (o.strict = true ∨ c = 's')) := by
+                have hi : 'i' ∈ p21readOptLetters := by decide
+                have ht : 't' ∈ p21readOptLetters := by decide
+                have hss : 's' ∈ p21readOptLetters := by decide
+                have hs : p21readStrictWithDashS = true := rfl
+                rcases hc1 with h | h | h <;> subst h <;> simp [applyLetter, hv, hu, hs, hi, ht, hss]
+              obtain ⟨h1, h2, h3⟩ := hstep
+              have := ihc (applyLetter o c) h1 h2 (fun x hx => hc x (by simp [hx]))
+              simp only [List.foldl_cons]
+              refine ⟨this.1, this.2.1, ?_⟩
+              rw [this.2.2, h3]
+              simp only [List.mem_cons]
+              constructor
+              · rintro ((h | h) | h)
+                · exact Or.inl h
+                · exact Or.inr (Or.inl h.symm)
+                · exact Or.inr (Or.inr h)
+              · rintro (h | h | h)
+                · exact Or.inl (Or.inl h)
+                · exact Or.inl (Or.inr h.symm)
+                · exact Or.inr h
+          have hthis := hfold a.toList.tail o hv hu (hl a (by simp))
+          rw [ih _ hthis.1 hthis.2.1 (fun x hx => hl x (by simp [hx])), hthis.2.2]
+          simp only [List.mem_cons, exists_eq_or_imp]
+          constructor
+          · rintro ((h | h) | h)
+            · exact Or.inl h
+            · exact Or.inr (Or.inl h)
+            · exact Or.inr (Or.inr h)
+          · rintro (h | h | h)
+            · exact Or.inl (Or.inl h)
+            · exact Or.inl (Or.inr h)
+            · exact Or.inr h
+        · have hf' : isFlagArg a = false := by simpa using hf
+          simp [parseArgs, flagArgs, hdd, hf']
+  have := key args initial rfl rfl hl
+  rw [this]
+  have : initial.strict = false := rfl
+  simp [this]
+
+open StepModel.ModeGlue in
+/-- `-ts`, `-st`, `-is`, `-t -s`, `-s -- f` request strict mode; `-t`, `-i`, `-it`, `-- -s` do not (concrete spellings) -/
+theorem C15_p21read_spellings :
+    (parseArgs initial ["-ts", "f"]).1.strict = true ∧ (parseArgs initial ["-st", "f"]).1.strict = true ∧
+    (parseArgs initial ["-is", "f"]).1.strict = true ∧ (parseArgs initial ["-t", "-s", "f"]).1.strict = true ∧
+    (parseArgs initial ["-s", "--", "f"]).1.strict = true ∧ (parseArgs initial ["-it", "f"]).1.strict = false ∧
+    (parseArgs initial ["--", "-s"]).1.strict = false ∧ (parseArgs initial ["f", "-s"]).1.strict = false := by
+  decide
+
+open StepModel.ModeGlue in
+/-- Nothing but the constructor writes `STEPfile::_strict` (regenerated: `strictSites` has no assignment in any read function),
+    so for EVERY history of ReadExchangeFile / AppendExchangeFile / ReadWorkingFile / AppendWorkingFile calls on one object —
+    successful or failing at the open — the mode the reader is handed in every later call of any file type is the constructor's -/
+theorem C15_mode_in_force (ctor : Bool) (history : List (Fn × Bool)) (f : Fn) (opened : Bool) :
+    (callMode strictSites (afterHistory strictSites ctor history) f opened).1 = ctor ∧
+    afterHistory strictSites ctor history = ctor := by
+  have hcall : ∀ (cur : Bool) (f : Fn) (ok : Bool), callMode strictSites cur f ok = (cur, cur) := by
+    intro cur f ok; cases f <;> cases ok <;> cases cur <;> rfl
+  have hhist : ∀ (h : List (Fn × Bool)) (cur : Bool), afterHistory strictSites cur h = cur := by
+    intro h
+    induction h with
+    | nil => intro cur; rfl
+    | cons x xs ih => intro cur; obtain ⟨g, ok⟩ := x; simp only [afterHistory, hcall]; exact ih cur
+  rw [hhist, hcall]; exact ⟨rfl, rfl⟩
+
+open StepModel.ModeGlue in
+/-- what assignments inside the read functions do to that: with `_strict = false` before the open and a restore after
+    AppendFile in the two working-session readers, (i) a strict STEPfile reads a working-session file leniently and (ii) after
+    ONE failed open the object stays lenient for every later exchange read -/
+theorem C15_mode_sites_witness :
+    let sites := [("readExchange", none, false), ("appendExchange", none, false),
+                  ("readWorking", some false, true), ("appendWorking", some false, true)]
+    (callMode sites true .readWorking true).1 = false ∧
+    (callMode sites (afterHistory sites true [(.readWorking, false)]) .readExchange true).1 = false ∧
+    (callMode sites (afterHistory sites true [(.readWorking, true)]) .readExchange true).1 = true := by
+  decide
 
 /-! ### hypotheses are satisfiable -/
 
